@@ -108,7 +108,11 @@ where
         should_continue: impl std::ops::Fn() -> bool + Clone,
     ) -> V {
         debug!("solve_root_goal(canonical_goal={:?})", canonical_goal);
-        assert!(self.stack.is_empty());
+        // A previous root goal may have been abandoned by unwinding (e.g. a
+        // panic in a database callback). Whatever it left behind is only
+        // in-progress state, so discard it instead of building on it.
+        self.stack.clear();
+        self.search_graph.rollback_to(DepthFirstNumber::MIN);
         let minimums = &mut Minimums::new();
         self.solve_goal(canonical_goal, minimums, solver_stuff, should_continue)
     }
